@@ -21,14 +21,15 @@ def build_cases(ck: core.Check, rnd: random.Random):
         c.update(kw)
         cases.append(c)
 
-    # configurations
+    # configurations (histories of one run, or of two runs into the same output directory: PipeConfig.Histories)
+    reruns = {json.dumps(c, sort_keys=True) for c in cfg["reruns"]}
     n_cfg = 0
     for c in sorted(cfg["configs"], key=lambda c: json.dumps(c, sort_keys=True)):
         if ck.quick and c["target"] == "cpp" and not (c["snippets"] == "default" and c["arg"] == "none" and c["model"] in ("valid", "type_error", "impl_class")):
             continue  # the C++ generator needs seconds per run
         sn = pipe_render.config_snippets(c["target"], c["snippets"])
         arg = c["arg"]
-        add({"src": "config", "config": c}, pipe_render.render_config_model(c["model"]), target=c["target"], snippets=sn["snippets"], snippets_raw=sn["snippets_raw"], argDefect=("none" if arg == "out_blocked" else arg), outBlock=(arg == "out_blocked"), surrogatepass=True, twice=(c["model"] == "valid" and c["snippets"] == "default" and arg == "none" and c["target"] in ("jsonschema", "xsd")))
+        add({"src": "config", "config": c}, pipe_render.render_config_model(c["model"]), target=c["target"], snippets=sn["snippets"], snippets_raw=sn["snippets_raw"], argDefect=("none" if arg == "out_blocked" else arg), outBlock=(arg == "out_blocked"), surrogatepass=True, twice=(json.dumps(c, sort_keys=True) in reruns))
         n_cfg += 1
     # the same through ``python -m aas_core_codegen`` (package __main__): process-level exit status
     n_mod = 0
